@@ -156,24 +156,30 @@ Proof.
 Qed.
 
 (* ------------------------------------------------------------------ intern table *)
-Lemma heap_wf_set_rc : forall h i rc rc' o, heap_wf h -> get h i = Some (Live rc o) ->
+Lemma heap_wf_set_rc : forall h i rc rc' o, heap_wf h -> get h i = Some (Live rc o) -> 1 <= rc' ->
   heap_wf (set_cell h i (Live rc' o)).
 Proof.
-  intros h i rc rc' o [ND W] G. split; simpl; auto.
-  intros k j Hin. destruct (W k j Hin) as [r Hr].
-  destruct (Nat.eq_dec i j).
-  - subst. rewrite get_set_same by (eapply get_lt; eauto). rewrite G in Hr. inversion Hr; subst. eauto.
-  - rewrite get_set_other by auto. eauto.
+  intros h i rc rc' o [ND [W Pz]] G L. split; [|split]; simpl; auto.
+  - intros k j Hin. destruct (W k j Hin) as [r Hr].
+    destruct (Nat.eq_dec i j).
+    + subst. rewrite get_set_same by (eapply get_lt; eauto). rewrite G in Hr. inversion Hr; subst. eauto.
+    + rewrite get_set_other by auto. eauto.
+  - intros x r o0 Hx. destruct (Nat.eq_dec i x).
+    + subst. rewrite get_set_same in Hx by (eapply get_lt; eauto). inversion Hx; subst. auto.
+    + rewrite get_set_other in Hx by auto. eauto.
 Qed.
 
 Lemma heap_wf_set_vals : forall h i rc k vs vs', heap_wf h -> get h i = Some (Live rc (Obj k vs)) ->
   kind_is_str k = false -> heap_wf (set_cell h i (Live rc (Obj k vs'))).
 Proof.
-  intros h i rc k vs vs' [ND W] G K. split; simpl; auto.
-  intros k0 j Hin. destruct (W k0 j Hin) as [r Hr].
-  destruct (Nat.eq_dec i j).
-  - subst. rewrite G in Hr. inversion Hr; subst. discriminate.
-  - rewrite get_set_other by auto. eauto.
+  intros h i rc k vs vs' [ND [W Pz]] G K. split; [|split]; simpl; auto.
+  - intros k0 j Hin. destruct (W k0 j Hin) as [r Hr].
+    destruct (Nat.eq_dec i j).
+    + subst. rewrite G in Hr. inversion Hr; subst. discriminate.
+    + rewrite get_set_other by auto. eauto.
+  - intros x r o0 Hx. destruct (Nat.eq_dec i x).
+    + subst. rewrite get_set_same in Hx by (eapply get_lt; eauto). inversion Hx; subst. eauto.
+    + rewrite get_set_other in Hx by auto. eauto.
 Qed.
 
 Lemma intern_remove_in : forall t i k j, In (k, j) (intern_remove t i) -> In (k, j) t.
@@ -198,7 +204,7 @@ Qed.
 
 Lemma heap_wf_free : forall h i o, heap_wf h -> get h i = Some (Live 1 o) -> heap_wf (free_cell h i o).
 Proof.
-  intros h i o [ND W] G. unfold free_cell. split; simpl.
+  intros h i o [ND [W Pz]] G. unfold free_cell. split; [|split]; simpl.
   - destruct (okind o); auto. apply intern_remove_nodup; auto.
   - intros k j Hin.
     assert (Hin0: In (k, j) (intern h)). { destruct (okind o); auto. eapply intern_remove_in; eauto. }
@@ -206,6 +212,9 @@ Proof.
     assert (j <> i).
     { intro; subst j. rewrite G in Hr. inversion Hr; subst. simpl in Hin. eapply intern_remove_not_in; eauto. }
     exists r. unfold get in *. simpl. rewrite nth_error_upd_other; auto.
+  - intros x r o0 Hx. unfold get in Hx. simpl in Hx. destruct (Nat.eq_dec i x).
+    + subst. rewrite nth_error_upd_same in Hx by (eapply get_lt; eauto). discriminate.
+    + rewrite nth_error_upd_other in Hx by auto. eapply Pz; eauto.
 Qed.
 
 Lemma intern_find_in : forall t key i, intern_find t key = Some i -> In (key, i) t.
@@ -223,7 +232,7 @@ Lemma retain_ok : forall h i, heap_wf h -> 1 <= rcof h i ->
 Proof.
   intros h i W L. destruct (rcof_pos_live _ _ L) as [rc [o [G E]]].
   unfold retain. rewrite G. eexists. split. reflexivity.
-  split. eapply heap_wf_set_rc; eauto.
+  split. eapply heap_wf_set_rc; eauto; lia.
   split. { intros x. destruct (Nat.eq_dec x i).
            - subst x. rewrite (rcof_set_same _ _ _ _ G). rewrite cnt_one_eq. simpl. lia.
            - rewrite rcof_set_other by auto. rewrite cnt_one_neq by auto. lia. }
@@ -273,9 +282,15 @@ Lemma alloc_ok : forall h o h' n, heap_wf h -> kind_is_str (okind o) = false -> 
   (forall x, cnt x (heap_refs h') = cnt x (heap_refs h) + cnt x (refs (ovals o))) /\
   freed_mono h h'.
 Proof.
-  intros h o h' n [ND W] K A. unfold alloc in A. inversion A; subst; clear A.
-  split. { split; simpl; auto. intros k i Hin. destruct (W k i Hin) as [r Hr]. exists r.
-           rewrite get_app_old by (eapply get_lt; eauto). exact Hr. }
+  intros h o h' n [ND [W Pz]] K A. unfold alloc in A. inversion A; subst; clear A.
+  split. { split; [|split]; simpl; auto.
+           - intros k i Hin. destruct (W k i Hin) as [r Hr]. exists r.
+             rewrite get_app_old by (eapply get_lt; eauto). exact Hr.
+           - intros x r o0 Hx. destruct (lt_dec x (length (cells h))).
+             + rewrite get_app_old in Hx by auto. eapply Pz; eauto.
+             + assert (x = length (cells h)).
+               { apply get_lt in Hx. simpl in Hx. rewrite app_length in Hx. simpl in Hx. lia. }
+               subst. rewrite get_app_new in Hx. inversion Hx; subst. lia. }
   split; auto.
   split. { intros x. rewrite rcof_app. lia. }
   split. { intros x. rewrite heap_refs_app, cnt_app. reflexivity. }
@@ -289,23 +304,26 @@ Lemma str_new_ok : forall h key, heap_wf h ->
     freed_mono h h'.
 Proof.
   intros h key W. unfold str_new. destruct (intern_find (intern h) key) as [i|] eqn:F.
-  - apply intern_find_in in F. destruct W as [ND Wf]. destruct (Wf _ _ F) as [rc G].
-    assert (L: 1 <= rcof h i \/ rcof h i = 0) by lia.
-    (* an interned string is live; its count may be anything >= 0 in this lemma: retain only needs liveness *)
+  - apply intern_find_in in F. pose proof W as W0. destruct W as [ND [Wf Pz]]. destruct (Wf _ _ F) as [rc G].
     unfold retain. rewrite G. simpl. eexists. exists i. split. reflexivity.
-    split. eapply heap_wf_set_rc; eauto. split; auto.
+    split. eapply heap_wf_set_rc; eauto; lia.
     split. { intros x. destruct (Nat.eq_dec x i).
              - subst x. rewrite (rcof_set_same _ _ _ _ G). rewrite (rcof_get _ _ _ G). rewrite cnt_one_eq. simpl. lia.
              - rewrite rcof_set_other by auto. rewrite cnt_one_neq by auto. lia. }
     split. { intros x. pose proof (heap_refs_set x h i _ (Live (S rc) (Obj (KStr key) [])) G). simpl in H. lia. }
     eapply freed_mono_set_live; eauto.
-  - destruct W as [ND Wf]. eexists. exists (length (cells h)). split. reflexivity.
-    split. { split; simpl.
+  - destruct W as [ND [Wf Pz]]. eexists. exists (length (cells h)). split. reflexivity.
+    split. { split; [|split]; simpl.
              - constructor; auto. intro Hin. apply in_map_iff in Hin. destruct Hin as [[k j] [E Hin]]. simpl in E. subst j.
                destruct (Wf _ _ Hin) as [r Hr]. apply get_lt in Hr. lia.
              - intros k i [E|Hin].
                + inversion E; subst. exists 1. apply get_app_new.
-               + destruct (Wf _ _ Hin) as [r Hr]. exists r. rewrite get_app_old by (eapply get_lt; eauto). exact Hr. }
+               + destruct (Wf _ _ Hin) as [r Hr]. exists r. rewrite get_app_old by (eapply get_lt; eauto). exact Hr.
+             - intros x r o0 Hx. destruct (lt_dec x (length (cells h))).
+               + rewrite get_app_old in Hx by auto. eapply Pz; eauto.
+               + assert (x = length (cells h)).
+                 { apply get_lt in Hx. simpl in Hx. rewrite app_length in Hx. simpl in Hx. lia. }
+                 subst. rewrite get_app_new in Hx. inversion Hx; subst. lia. }
     split. { intros x. rewrite rcof_app. lia. }
     split. { intros x. rewrite heap_refs_app, cnt_app. unfold heap_refs. cbn [cell_refs ovals]. rewrite refs_nil, cnt_nil. lia. }
     apply freed_mono_app.
@@ -379,7 +397,7 @@ Proof.
       { intros x. destruct (Nat.eq_dec x i).
         - subst x. unfold h1. rewrite (rcof_set_same _ _ _ _ G). rewrite (rcof_get _ _ _ G). rewrite cnt_one_eq. simpl. clia.
         - unfold h1. rewrite rcof_set_other by auto. rewrite cnt_one_neq by auto. clia. }
-      assert (W1: heap_wf h1). { eapply heap_wf_set_rc; eauto. }
+      assert (W1: heap_wf h1). { eapply heap_wf_set_rc; eauto; lia. }
       assert (P1: PInv h1 R wl').
       { intros x. specialize (P x). specialize (HR x). specialize (R1 x). rewrite (cnt_cons x i wl') in P. clia. }
       assert (S1: sum_rc h1 < fuel).
